@@ -621,6 +621,11 @@ func (g *gctx) stmt() (*Stmt, bool) {
 		if g.o.Arrays && g.chance(25, "copystoreidiom") {
 			return g.copyStoreIdiom(), false
 		}
+		if g.chance(20, "topaliasidiom") {
+			if st := g.topAliasIdiom(); st != nil {
+				return st, false
+			}
+		}
 		return g.aliasIdiom(), false
 	}
 	if g.o.Arrays && len(g.loops) == 0 && g.ifDepth%100 == 0 && g.chance(4, "nestedarridiom") {
@@ -893,6 +898,68 @@ func (g *gctx) nestedArrayIdiom() *Stmt {
 	g.pending = append(g.pending, &Stmt{K: SDefine, Name: vb, E: e})
 	if g.fn.Name == "main" {
 		g.sink = append(g.sink, named{vb, g.top()[vb]})
+	}
+	return first
+}
+
+// topAliasIdiom emits
+//
+//	vQ := (<dyn U> + 1) ^ (<dyn U> + 2)    (dead temporaries as wide as U)
+//	vX := <dyn T> * <dyn T>                (a new value of the wide type T)
+//	vS := U(vX >> (N-M)) + vQ              (an alias of the top bits of vX, dead after this)
+//	vF := <dyn W> + 1                      (a new value of another width)
+//	vZ := vX + <dyn T>                     (vX is still live)
+//
+// an alias window that ends at the top of its source value and dies before
+// the source does, followed by an allocation of a new width.
+func (g *gctx) topAliasIdiom() *Stmt {
+	var wide []Type
+	for _, P := range g.pool {
+		if P.N >= 6 {
+			wide = append(wide, P)
+		}
+	}
+	if len(wide) == 0 {
+		return nil
+	}
+	T := wide[g.intn(0, len(wide)-1, "tatype")]
+	M := g.intn(3, T.N-1, "tanarrow")
+	if T.N >= 16 && g.chance(50, "tahalf") {
+		M = T.N / 2
+	}
+	U := Type{K: T.K, N: M}
+	W := g.pickType("taother")
+	lit := func(T Type, v string) *Expr { return &Expr{Op: ELit, T: T, Val: v} }
+	bin := func(T Type, op string, a, b *Expr) *Expr { return &Expr{Op: EBin, T: T, Name: op, A: []*Expr{a, b}} }
+	// All operands are drawn before the new names exist in the scope.
+	u1, u2 := g.dynSource(U), g.dynSource(U)
+	t1, t2, t3 := g.dynSource(T), g.dynSource(T), g.dynSource(T)
+	w1 := g.dynSource(W)
+	def := func(T Type, e *Expr) string {
+		name := g.fresh()
+		g.top()[name] = &varInfo{T: T, Dyn: true}
+		g.pending = append(g.pending, &Stmt{K: SDefine, Name: name, E: e})
+		return name
+	}
+	q := g.fresh()
+	g.top()[q] = &varInfo{T: U, Dyn: true}
+	first := &Stmt{K: SDefine, Name: q, E: bin(U, "^", bin(U, "+", u1, lit(U, "1")), bin(U, "+", u2, lit(U, "2")))}
+	op := "*"
+	if g.chance(30, "taadd") {
+		op = "+"
+	}
+	x := def(T, bin(T, op, t1, t2))
+	xv := &Expr{Op: EVar, T: T, Name: x}
+	top := &Expr{Op: ECast, T: U, A: []*Expr{bin(T, ">>", xv, lit(Uint(32), fmt.Sprint(T.N-M)))}}
+	sv := def(U, bin(U, "+", top, &Expr{Op: EVar, T: U, Name: q}))
+	f := def(W, bin(W, "+", w1, lit(W, "1")))
+	if W.N == 1 && W.Signed() {
+		// int1 holds 0 and -1 only.
+		g.pending[len(g.pending)-1].E = bin(W, "^", w1, w1)
+	}
+	z := def(T, bin(T, "+", xv, t3))
+	if g.fn.Name == "main" && g.ifDepth%100 == 0 {
+		g.sink = append(g.sink, named{sv, g.top()[sv]}, named{f, g.top()[f]}, named{z, g.top()[z]})
 	}
 	return first
 }
